@@ -390,6 +390,6 @@ pub fn add_vectors(x: &VecH, y: &VecH, heap: &mut Heap) -> (r: Primitive)
 
 UNITS = [VUnit("c13_lists", ["C13", "C17", "C15", "C08"], "list methods vs the sequence model, with sharing as an explicit heap", build)]
 UNITS[0].assumes = ["gc / RefCell semantics assumed: a list handle denotes a heap cell; clones alias it; GcVector::new allocates a cell no handle points to; std::vec::Vec operations have their documented meaning",
-                    "the argument vector has the shape the compiler's typing guarantees (receiver is a list, argument kinds) -- preconditions",
+                    "the argument vector has the shape the compiler's typing guarantees (receiver is a list, argument kinds) -- preconditions; the declared parameter lists of the list methods are obligations C02.sig.list.params.* (unit c02_method_sigs), the argument check itself C03.args.*",
                     "element equality (Primitive::equals) is an uninterpreted relation here",
                     "map methods, index read/assignment (vec_op), map/filter bridges and composition over operation histories are not covered by this unit"]
